@@ -93,6 +93,22 @@ def main():
         val3 = "resetNoRestore"
     else:
         fail("run_in_synthesis_mode: unrecognised treatment of produced_placeholders (save=%s reset=%s restore=%s)" % (bool(saves), resets, restores))
+    # ---- validate_type_instantiation_customized: which substitution are the bounds checked against?
+    k2 = tc.find("fn validate_type_instantiation_customized(")
+    if k2 < 0:
+        fail("typing_context.rs: validate_type_instantiation_customized not found")
+    b4 = tc[k2:k2 + 3500]
+    loop = b4.find("for (tparam, targ) in interface_type_parameters.into_iter().zip(&nominal_type.type_arguments)")
+    if loop < 0 or "subst_nominal_type(&bound, &subst_mapping)" not in b4[loop:]:
+        fail("validate_type_instantiation_customized: bound loop `for (tparam, targ) in interface_type_parameters.into_iter().zip(..)` / `subst_nominal_type(&bound, &subst_mapping)` not found")
+    built_before = re.search(r"let subst_mapping = interface_type_parameters\s*\.iter\(\)\s*\.zip\(&nominal_type\.type_arguments\)\s*\.map\(\|\(tparam, targ\)\| \(tparam\.name, targ\.dupe\(\)\)\)\s*\.collect", b4[:loop])
+    grown_inside = "subst_mapping.insert(" in b4[loop:loop + 600]
+    if built_before and not grown_inside:
+        val4 = "fullMap"
+    elif grown_inside and not built_before:
+        val4 = "prefixMap"
+    else:
+        fail("validate_type_instantiation_customized: unrecognised construction of subst_mapping")
     text = f"""import SamVerif.Model.C13Hint
 /-! GENERATED by extract/c13_phase0.py from crates/samlang-checker/src/main_checker.rs — do not edit.
 Re-check test found in Phase 0: `{test}` -/
@@ -106,12 +122,15 @@ def elseIfHint : ElseIfHint := .{val2}
 /-- treatment of `produced_placeholders` by `run_in_synthesis_mode` (typing_context.rs) -/
 def flagDiscipline : FlagDiscipline := .{val3}
 
+/-- substitution applied to the bounds by `validate_type_instantiation_customized` -/
+def boundSubst : BoundSubst := .{val4}
+
 end SamVerif.Hint.Generated
 """
     os.makedirs(os.path.dirname(OUT), exist_ok=True)
     if not os.path.exists(OUT) or open(OUT).read() != text:
         open(OUT, "w").write(text)
-    print(val, val2, val3)
+    print(val, val2, val3, val4)
 
 
 if __name__ == "__main__":
